@@ -314,7 +314,9 @@ func describe(states map[uint64]time.Time, cur uint64) string {
 
 func genCase(t *rapid.T) Case {
 	c := Case{Kind: rapid.IntRange(0, 3).Draw(t, "kind")}
-	switch rapid.IntRange(0, 3).Draw(t, "firstMode") {
+	switch rapid.IntRange(0, 4).Draw(t, "firstMode") {
+	case 4: // far directories, also right behind the budget rule's threshold and at the second path level's boundary
+		c.First = rapid.OneOf(rapid.IntRange(2001, 5000), rapid.IntRange(999000, 1001000), rapid.IntRange(999000, 3000000)).Draw(t, "farFirst")
 	case 0:
 		c.First = 1
 	case 1:
@@ -331,6 +333,9 @@ func genCase(t *rapid.T) Case {
 		c.First = 2 // changeset files carry name-1 inside; keep that number positive
 	}
 	n := rapid.IntRange(1, 70).Draw(t, "n")
+	if c.First > 2000 && rapid.Bool().Draw(t, "farFew") {
+		n = rapid.IntRange(1, 8).Draw(t, "nFew") // few states: a bisection probe often carries exactly the queried timestamp
+	}
 	pattern := rapid.IntRange(0, 5).Draw(t, "pattern")
 	pmiss := []int{0, 1, 3, 5, 8, 9}[pattern]
 	run := false
@@ -348,6 +353,7 @@ func genCase(t *rapid.T) Case {
 		}
 		c.Missing = append(c.Missing, miss)
 	}
+	farExact := false
 	total := 0
 	for _, g := range c.Gaps {
 		total += g
@@ -373,7 +379,14 @@ func genCase(t *rapid.T) Case {
 		for i := range c.Missing {
 			c.Missing[i] = false
 		}
-		if n >= 2 && c.Query <= c.Gaps[0]+c.Gaps[1] {
+		if n >= 3 && rapid.Bool().Draw(t, "farExact") {
+			// exactly the timestamp of the third or a later state (F14: such a probe is the answer)
+			farExact = true
+			c.Query = 0
+			for i, k := 0, rapid.IntRange(2, n-1).Draw(t, "farK"); i <= k; i++ {
+				c.Query += c.Gaps[i]
+			}
+		} else if n >= 2 && c.Query <= c.Gaps[0]+c.Gaps[1] {
 			c.Query = c.Gaps[0] + c.Gaps[1] + 1
 		} else if n < 2 {
 			c.Query = c.Gaps[0] + 1
@@ -384,6 +397,9 @@ func genCase(t *rapid.T) Case {
 	c.Prefix = rapid.SampledFrom([]string{"", "", "/mirror/osm"}).Draw(t, "prefix")
 	c.QZone = rapid.SampledFrom([]int{0, 0, 1, 2, 3}).Draw(t, "qzone")
 	c.QueryMS = rapid.SampledFrom([]int{0, 0, 1, 500, 999}).Draw(t, "queryMS")
+	if farExact && c.QueryMS != 1 {
+		c.QueryMS = 0
+	}
 	if rapid.IntRange(0, 5).Draw(t, "refuse?") == 0 {
 		c.Refuse = rapid.IntRange(1, 100).Draw(t, "refuse")
 		c.RefuseStatus = rapid.SampledFrom([]int{403, 408, 429, 401}).Draw(t, "refuseStatus")
@@ -411,9 +427,12 @@ func TestStateAt(t *testing.T) {
 			if c.First > 1 {
 				cl = append(cl, "missing-prefix")
 			}
+			if c.First > 2000 {
+				cl = append(cl, "far-directory")
+			}
 			return lastNT, cl
 		},
-		Floors: map[string]float64{"gap-inside-range": 0.4, "missing-prefix": 0.4},
+		Floors: map[string]float64{"gap-inside-range": 0.3, "missing-prefix": 0.4, "far-directory": 0.1},
 	})
 }
 
